@@ -5,6 +5,7 @@ import unittest
 import warnings
 
 import eliot
+import eliot.json
 from eliot import ActionType, Field, MemoryLogger, MessageType, ValidationError, add_destinations, log_message, remove_destination, write_traceback
 from eliot import _output
 from eliot.testing import UnflushedTracebacks, capture_logging, check_for_errors, validate_logging
@@ -347,11 +348,33 @@ def one_validate(seed, i, res):
 # --------------------------------------------------------------------------- part: capture
 
 
+class Money(object):
+    def __init__(self, amount):
+        self.amount = amount
+
+
+class MoneyEncoder(eliot.json.EliotJSONEncoder):
+    def default(self, o):
+        if isinstance(o, Money):
+            return {"money": o.amount}
+        return eliot.json.EliotJSONEncoder.default(self, o)
+
+
+class RefusingEncoder(eliot.json.EliotJSONEncoder):
+    """Stricter than the stock encoder: none of eliot's extra types."""
+
+    def default(self, o):
+        raise TypeError("only plain JSON here")
+
+
 def one_capture(seed, i, res, tape):
     rng = random.Random("%s:C14:c:%d" % (seed, i))
     outcome = rng.choice(["pass", "fail", "error", "skip", "skip_method", "baseexc"])
     assertion = rng.choice(["none", "ok", "fail", "raise"])
-    body = rng.choice(["valid", "invalid", "traceback", "flushed_traceback", "nothing"])
+    body = rng.choice(["valid", "invalid", "traceback", "flushed_traceback", "nothing", "custom_value", "refused_value"])
+    # encoder_: a test may name the JSON encoder class its log has to be encodable with (subclassing EliotJSONEncoder is the documented way)
+    encoder = rng.choice(["default", "money", "refusing"]) if body in ("custom_value", "refused_value") else rng.choice(["default", "default", "money"])
+    leaves_swapped = rng.random() < 0.12  # the body installs another default logger itself and never puts the old one back
     decorator = rng.choice(["capture", "capture", "capture", "validate"])
     nested = rng.choice([0, 0, 1, 2]) if decorator == "capture" else 0  # decorated helpers called on the same TestCase instance
     ran = {"assertion": 0, "body": 0}
@@ -368,6 +391,7 @@ def one_capture(seed, i, res, tape):
 
     dec = capture_logging if decorator == "capture" else validate_logging
     cb = None if assertion == "none" else assert_cb
+    enc_kw = {} if encoder == "default" else {"encoder_": MoneyEncoder if encoder == "money" else RefusingEncoder}
     with warnings.catch_warnings():
         warnings.simplefilter("ignore")
 
@@ -379,7 +403,7 @@ def one_capture(seed, i, res, tape):
                 if len(logger.messages) != 1:
                     raise RuntimeError("helper's logger did not capture exactly its own message")
 
-            @dec(cb, *(() if cb is None else (1,)), **({} if cb is None else {"k": 2}))
+            @dec(cb, *(() if cb is None else (1,)), **dict({} if cb is None else {"k": 2}, **enc_kw))
             def test_it(self, logger):
                 ran["body"] += 1
                 ran["logger"] = logger
@@ -397,6 +421,15 @@ def one_capture(seed, i, res, tape):
                         write_traceback() if decorator == "capture" else write_traceback(logger)
                     if body == "flushed_traceback":
                         logger.flush_tracebacks(excs.UserError)
+                elif body in ("custom_value", "refused_value"):
+                    v = Money(5) if body == "custom_value" else {1, 2}
+                    if decorator == "capture":
+                        log_message(message_type="c14:untyped", v=v)
+                    else:
+                        logger.write({"message_type": "c14:untyped", "v": v, "task_uuid": "u", "task_level": [1], "timestamp": 1.0})
+                if leaves_swapped and decorator == "capture":
+                    from eliot.testing import swap_logger as _swap
+                    _swap(MemoryLogger())
                 if outcome == "fail":
                     self.fail("planned failure")
                 if outcome == "error":
@@ -438,7 +471,8 @@ def one_capture(seed, i, res, tape):
         want_assert = 0 if (cb is None or skipped) else 1
         if ran["assertion"] != want_assert:
             problems.append("assertion callback ran %d times, expected %d (outcome %s)" % (ran["assertion"], want_assert, outcome))
-        bad_log = body in ("invalid", "traceback")
+        # Money is encodable only by MoneyEncoder; a set by the stock encoder and MoneyEncoder but not by RefusingEncoder
+        bad_log = body in ("invalid", "traceback") or (body == "custom_value" and encoder != "money") or (body == "refused_value" and encoder == "refusing")
         should_fail = outcome in ("fail", "error", "baseexc") or bad_log or (assertion in ("fail", "raise") and not skipped)
         # a decorated helper leaves ITS logger installed until the cleanups run (that is how capture_logging is built), so with
         # nested helpers what the outer body logs goes elsewhere: only restoration is judged for those runs
@@ -452,7 +486,7 @@ def one_capture(seed, i, res, tape):
     res["evals"] += 1
     c = res["counters"]
     c["decorated_tests_run"] = c.get("decorated_tests_run", 0) + 1
-    res["sets"]["capture_signatures"].append("%s/%s/%s/%s/nested%d" % (outcome, assertion, body, decorator, nested))
+    res["sets"]["capture_signatures"].append("%s/%s/%s/%s/nested%d/%s%s" % (outcome, assertion, body, decorator, nested, encoder, "/swapped" if leaves_swapped else ""))
     if nested and ran.get("helper", 0) != nested:
         problems.append("decorated helper ran %d times, expected %d" % (ran.get("helper", 0), nested))
     if outcome != "pass":
